@@ -33,7 +33,7 @@ def B2_for(*mods):
 prop("C01",
      lambda tier: [tls.rule_A5, B1_for("decryptor", "session"), tables.rule_T4, tables.rule_T3_classes, tables.rule_T3_iv, tls.rule_types, tls.rule_A4, tls.rule_PAD,
                    tls.rule_T10, tls.rule_D1, output.rule_A8, tcp.rule_tls_causality, output.rule_T7_split, output.rule_A7, B2_for("output_builder", "session"),
-                   tcp.rule_framing, tcp.rule_A9, tcp.rule_full_scans, tcp.rule_A6a, output.rule_packet_fields],
+                   tcp.rule_framing, tcp.rule_A9, tcp.rule_full_scans, tcp.rule_A6a, output.rule_packet_fields, kdf.rule_T5_tls, kdf.rule_B4, state.rule_D6_ownership],
      "Decides the necessary structure of per-record state and dispatch: sequence number read/increment pairing, CBC residue chaining from ciphertext, RC4 contexts "
      "created once, key switch at Finished assigning key+IV+seq of one direction (A5); direction arms are mirror images (B1); decrypt() dispatch equals the record "
      "protection of every valid (version, bulk) pair, by finite-domain guard evaluation (T4); parser/decryptor/IV-length tables agree (T3); record / handshake type "
@@ -45,7 +45,7 @@ prop("C01",
 prop("C02",
      lambda tier: [quic.rule_D8, quic.rule_T5_quic, quic.rule_T9_aad, quic.rule_T9_hp, quic.rule_epoch, quic.rule_D7b, quic.rule_frame_attrs,
                    B1_for("quic.quic_session", "quic.quic_dissector", "quic.quic_decryptor", "quic.quic_tls_parser", "quic.quic_output_builder"),
-                   pkn.rule_pn_spaces, progress.rule_A2, quic.rule_itermut, frames.rule_T8, state.rule_attr_kinds, tcp.rule_full_scans, quic.rule_crypto_reassembly, kdf.rule_T6_quic],
+                   pkn.rule_pn_spaces, progress.rule_A2, quic.rule_itermut, frames.rule_T8, state.rule_attr_kinds, tcp.rule_full_scans, quic.rule_crypto_reassembly, kdf.rule_T6_quic, quic.rule_quic_handshake_state],
      "Decides: output grouping merges frames only within one input datagram and emits closed groups with their own time/direction (D8); key-name agreement producer → "
      "dissector/session with role and epoch, list positions of QuicDecryptor keys, decryptor per packet type (T5q); AAD = header in wire order per header form, nonce "
      "construction (T9a); header-protection constants (T9h); key-phase epoch rule (EPO); connection-ID matching only on non-empty IDs, CID learning (D7b); frame "
@@ -55,7 +55,7 @@ prop("C02",
 
 prop("C03",
      lambda tier: [escape.rule_A1, escape.rule_A1_records, escape.rule_A1_quic_packets, progress.rule_A2, tls.rule_A4, tls.rule_D1, state.rule_D6_ownership,
-                   tcp.rule_framing, B2_for("session"), state.rule_attr_kinds, mirror.rule_B3_match],
+                   tcp.rule_framing, B2_for("session"), state.rule_attr_kinds, mirror.rule_B3_match, quic.rule_D7b],
      "Decides 'never makes the run fail' as an interprocedural may-raise analysis: every site of classes S1–S6 (raise, index/key lookup, non-total external call, "
      "possibly-unbound local, attribute not set by every constructor path, data-dependent division) reachable from an iteration of run()'s capture loop or "
      "finalisation loops is covered by a handler inside that iteration (A1), per record for TLS (A1r), the dissector absorbs its own faults (A1q); every data-driven "
@@ -66,7 +66,7 @@ prop("C03",
 
 prop("C04",
      lambda tier: [state.rule_D6_ownership, mirror.rule_B3_match, keylog.rule_D7, quic.rule_D7b, cli.rule_A6c, mirror.rule_B3_bind, escape.rule_A1,
-                   state.rule_attr_kinds, output.rule_packet_fields],
+                   state.rule_attr_kinds, output.rule_packet_fields, kdf.rule_B4],
      "Decides: per-flow classes keep all state on the instance — no class-level mutable attributes, mutable defaults, global writes, shared key list never mutated by "
      "flow code (D6a); both match predicates test the full 4-tuple in both orientations (B3); secrets are selected by client-random equality on normalised case (D7); "
      "QUIC datagrams are matched by non-empty connection ID, else by 4-tuple (D7b); session creation gate and role binding (A6c, B3b). Together: a packet can only "
@@ -75,7 +75,7 @@ prop("C04",
 
 prop("C05",
      lambda tier: [tcp.rule_A9, tcp.rule_A6a, tcp.rule_framing, tcp.rule_tls_causality, B2_for("session"), B1_for("session"),
-                   tcp.rule_D9_seq, tcp.rule_expected_seq],
+                   tcp.rule_D9_seq, tcp.rule_expected_seq, state.rule_D6_ownership],
      "Decides the structural necessary conditions of segmentation-independence: per-direction duplicate suppression pairing (A9), empty segments "
      "never reach the dedupe (A6a), framing loops make progress and release records only when whole (loop-replay lemma), record slice and buffer "
      "clearing (FR), single in-order pass (CAUS), server/client twins are mirror images (B1/B2), sequence arithmetic modular (D9s) and "
@@ -101,7 +101,7 @@ prop("C07",
 
 prop("C08",
      lambda tier: [tcp.rule_tls_causality, output.rule_A8, tcp.rule_framing, escape.rule_A1_records, quic.rule_D8, output.rule_A7, output.rule_T7_split,
-                   B2_for("output_builder", "session"), escape.rule_A1, tcp.rule_full_scans],
+                   B2_for("output_builder", "session"), escape.rule_A1, tcp.rule_full_scans, state.rule_D6_ownership, tcp.rule_A9],
      "Decided as the classical argument for online algorithms — every stage is causal, append-only and a left fold, hence the export of a prefix is a prefix of the "
      "export — each premise being a structural obligation: single in-order pass without look-ahead (CAUS), append-only channels consumed in order (A8), records released "
      "only when whole and buffers cleared (FR + loop-replay lemma), a fault in record i cannot discard output of records < i (A1r), QUIC groups closed exactly at "
@@ -158,7 +158,7 @@ prop("C14",
      controls=["c14-sha-before-sha256"])
 
 prop("C15",
-     lambda tier: [kdf.rule_T6, kdf.rule_T7_keyblock, kdf.rule_T5_tls, quic.rule_T5_quic, kdf.rule_B4, tables.rule_T3_iv, quic.rule_T9_hp, tcp.rule_full_scans, quic.rule_epoch],
+     lambda tier: [kdf.rule_T6, kdf.rule_T7_keyblock, kdf.rule_T5_tls, quic.rule_T5_quic, kdf.rule_B4, tables.rule_T3_iv, quic.rule_T9_hp, tcp.rule_full_scans, quic.rule_epoch, quic.rule_quic_handshake_state],
      "Decides: every HKDF-Expand call site (TLS 1.3: 8, QUIC: 18 + Initial 6 + key update 6) derives the key/iv/hp of the role and epoch of the key-log label it is "
      "guarded by, with the RFC label bytes, declared lengths and output lengths; Initial keys independent of the negotiated suite; PRF labels, seed orders per purpose "
      "and PRF hash selection (T6); key block partitioned into consecutive gap-free slices MAC_c, MAC_s, key_c, key_s, IV_c, IV_s, by polynomial normal forms (T7k); "
@@ -184,7 +184,7 @@ prop("C17",
      ["RFC 9000 §19 / RFC 9221 §4 layout table in the checker"], controls=["c17-missing-field"])
 
 prop("C18",
-     lambda tier: [state.rule_D6_reinit, state.rule_D6_nondet, state.rule_D6_paths, state.rule_D6_ownership, output.rule_A8, state.rule_attr_kinds],
+     lambda tier: [state.rule_D6_reinit, state.rule_D6_nondet, state.rule_D6_paths, state.rule_D6_ownership, state.rule_D6_outfile, output.rule_A8, state.rule_attr_kinds],
      "Decides the absence of nondeterminism sources in the code reachable from run(): no hash/id/random/time/env/cwd calls, no order-sensitive iteration "
      "over sets (D6b), no cwd-relative implicit input (D6c), every module-level mutable object run() mutates is re-initialised by run() before use (D6r), "
      "no shared mutable class/module state in flow classes (D6a). Does not decide determinism of scapy/dpkt/cryptography internals.",
